@@ -1,7 +1,7 @@
 import os
 import vlib
 
-THEOREMS = []
+THEOREMS = ["Dispenso.SmallVec." + t for t in ["C38_ledger", "C38_all_destroyed", "C38_capacity", "C38_elem_aligned", "C38_wf_reachable", "C38_sem_mkCount", "C38_sem_copyCtor", "C38_sem_moveCtor", "C38_sem_copyAssign", "C38_sem_moveAssign", "C38_sem_pushBack", "C38_sem_popBack", "C38_sem_resize", "C38_sem_reserve", "C38_sem_reserve_cap", "C38_sem_clear", "C38_sem_erase", "C38_sem_frame"]]
 
 
 def run(ctx, replay):
